@@ -189,18 +189,33 @@ def assemble(sess, sp, proof):
     bodies = []
     names = ([proof.enforce] if proof.enforce else []) + proof.bodies
     calls = set(); globs = {}
-    for n in names:
+    text_all = proof.extra + (proof.harness or '') + ''.join(d for d, _ in sp.decls)
+    listed = set(n.split('@')[0] for n in names) | set(proof.replace)
+    a.auto_bodies = []
+    idx = 0
+    while idx < len(names):
+        n = names[idx]; idx += 1
         cn, u, tu = unit_of(n)
         try:
             r = u.emit(cn)
         except cxx2c.Unsupported as ex:
+            if cn in a.auto_bodies: continue      # an auto-inlined helper that cannot be extracted: reported as missing callee below
             raise Broken('extraction of %s failed: %s' % (cn, ex))
         bodies.append((cn, u, r)); calls |= r['calls']
+        # a callee the spec does not mention, defined in the same translation unit (a helper introduced by a refactoring):
+        # verify it together with its caller instead of giving up (loops in it need unwinding like any contract-less loop)
+        for c in sorted(r['calls']):
+            if c in listed or c in sp.stubs or c in sp.functions or c in a.auto_bodies or len(a.auto_bodies) >= 6: continue
+            if c.startswith('__builtin_') or c.startswith('PlatformSpecific') or c in ('VERIF_operator_new', 'VERIF_throw'): continue
+            if re.search(r'\b%s\s*\(' % re.escape(c), text_all): continue
+            f = u.fn.get(c)
+            if f is not None and any(x.get('kind') == 'CompoundStmt' for x in f.get('inner', [])):
+                a.auto_bodies.append(c); names.append(c + '@' + tu if '@' not in c else c); listed.add(c)
         for g in r['globals']: globs[g] = u
         for k, v in r['rules'].items(): a.rules[k] = a.rules.get(k, 0) + v
         f, bo, eo, h = r['srchash']
         a.functions.append(dict(function=cn, tu=tu, source=f, line=r['line'], byte_range=[bo, eo], sha256=h, loops=r['loops'],
-                                rules=r['rules'], role='enforced' if cn == proof.enforce else 'body'))
+                                rules=r['rules'], role='enforced' if cn == proof.enforce else ('auto-inlined helper' if cn in a.auto_bodies else 'body')))
     body_names = set(b[0] for b in bodies)
     out = [cxx2c.C_PRELUDE, main_unit.types]
     # globals (R14 / R15)
@@ -267,7 +282,7 @@ def assemble(sess, sp, proof):
         # a body verified together with the target keeps its loop contracts but its own pre/post are not used
         text = r['text']
         if fs and proof.no_loop_contracts:
-            fs0 = specmod.FunctionSpec(cn); fs0.loops = {}; fs0.ghost = fs.ghost; fs0.contract = fs.contract; fs = fs0
+            fs0 = specmod.FunctionSpec(cn); fs0.loops = {}; fs0.ghost = fs.ghost if proof.enforce else {}; fs0.contract = fs.contract; fs = fs0
         if cn != proof.enforce and fs:
             fs2 = specmod.FunctionSpec(cn); fs2.loops = fs.loops; fs2.ghost = fs.ghost; fs2.contract = ''
             text = splice(text, fs2, r['loops'])
@@ -322,6 +337,8 @@ def run_portfolio(cur, backends, tail, timeout, cwd):
     """start one cbmc per back end; the first that terminates with a parsable result wins, the others are killed"""
     import signal
     t0 = time.time()
+    if not os.path.isdir(cwd):
+        os.makedirs(cwd, exist_ok=True); cur = os.path.join('..', cur)
     procs = []
     for b in backends:
         out = open(os.path.join(cwd, 'out_%s.json' % b), 'w')
@@ -358,6 +375,31 @@ def run_portfolio(cur, backends, tail, timeout, cwd):
     if winner: return winner[0], winner[1], winner[2], dt, winner[3]
     if time.time() - t0 >= timeout: return -9, last[1], 'TIMEOUT', dt, backends[0]
     return last[0], last[1], last[2], dt, last[3]
+
+
+def run_split(cur, proof, backends, tail, d):
+    """decide the obligations matching proof.split[0] with the back ends proof.split[1], all others with @backend, and merge"""
+    rx, b2 = proof.split
+    rc, so, se, dt0 = run(['cbmc', cur, '--show-properties', '--json-ui'] + [t for t in tail if t not in ('--json-ui',)], 300, d)
+    try:
+        names = [p['name'] for el in json.loads(so) if isinstance(el, dict) for p in el.get('properties', [])]
+    except Exception:
+        return rc, so, se, dt0, backends[0]
+    A = [n for n in names if re.search(rx, n)]; B = [n for n in names if not re.search(rx, n)]
+    if not A or not B: return run_portfolio(cur, backends, tail, proof.timeout, d)
+    def props(ns): return [x for n in ns for x in ('--property', n)]
+    with ThreadPoolExecutor(max_workers=2) as ex:
+        fa = ex.submit(run_portfolio, cur, b2.split(','), tail + props(A), proof.timeout, os.path.join(d, 'splitA'))
+        fb = ex.submit(run_portfolio, cur, backends, tail + props(B), proof.timeout, os.path.join(d, 'splitB'))
+        ra, rb = fa.result(), fb.result()
+    if ra[2] == 'TIMEOUT' or rb[2] == 'TIMEOUT': return -9, '', 'TIMEOUT', max(ra[3], rb[3]), backends[0]
+    try:
+        ja, jb = json.loads(ra[1]), json.loads(rb[1])
+        res = [r for el in ja if isinstance(el, dict) for r in el.get('result', [])] + [r for el in jb if isinstance(el, dict) for r in el.get('result', [])]
+        msgs = [el for el in ja + jb if isinstance(el, dict) and el.get('messageType') in ('ERROR', 'WARNING')]
+        return 0, json.dumps(msgs + [{'result': res}]), '', max(ra[3], rb[3]), rb[4] + '+' + ra[4] + '(split)'
+    except Exception:
+        return ra[0], ra[1], ra[2], ra[3], ra[4]
 
 
 def limit_pg():
@@ -455,8 +497,11 @@ def run_proof(sess, sp, proof):
         cmd += ['--unwindset', ','.join(us)]
     if proof.object_bits: cmd += ['--object-bits', str(proof.object_bits)]
     backends = proof.backend.split(',')
-    rc, so, se, dt, used = run_portfolio(cur, backends, base_tail(cmd, proof), proof.timeout, d)
-    cmd = ['cbmc', cur] + backend_flags(used) + base_tail(cmd, proof)
+    if proof.split:
+        rc, so, se, dt, used = run_split(cur, proof, backends, base_tail(cmd, proof), d)
+    else:
+        rc, so, se, dt, used = run_portfolio(cur, backends, base_tail(cmd, proof), proof.timeout, d)
+    cmd = ['cbmc', cur] + backend_flags(used.split('+')[0].split('(')[0] if used.split('+')[0] in ('kissat','cadical','z3','cvc5','minisat') else backends[0]) + base_tail(cmd, proof)
     res.backend_used = used; res.secs = dt
     res.cmd = (' '.join(gi) + ' && ' if gi else '') + ' '.join(cmd)
     open(os.path.join(d, 'cbmc.json'), 'w').write(so)
